@@ -287,6 +287,7 @@ fn main() {
                 let id = args[2].clone();
                 replay_generic(&args[2], &args[3], &move |c, acc| replay_matcher_case(&id, c, acc))
             }
+            "C11" if args[3].contains("_e2_") => e2run::replay("C11", &args[3]),
             "C11" => replay_generic("C11", &args[3], &c11::replay_case),
             "C08" => replay_generic("C08", &args[3], &c11::replay_case_c08),
             "C14" => replay_generic("C14", &args[3], &c14::replay_case),
@@ -304,9 +305,13 @@ fn main() {
             dom::quiet_panics();
             c11::run_seq(&mut rep);
             rep.acc.traces = rep.acc.transitions;
-            rep.exhaustive = true;
-            rep.bound = "sequential: every history up to the depth bound over 12 operations from 18 start states".into();
-            rep.rule = "complete enumeration of operation histories; non-trivial = at least two operations including a lying iterator or a panicking callback".into();
+            let seq_hist = rep.acc.evaluations;
+            // handle / restart / drop histories and an outliving injector thread on the real
+            // Nucleo under the controlled scheduler
+            e2run::collect("C11", &args[2], &mut rep);
+            let e2_bound = rep.bound.clone();
+            rep.bound = format!("sequential: every history up to the depth bound over 12 operations from 18 start states ({seq_hist} histories); front end: {e2_bound}");
+            rep.rule = "complete enumeration of operation histories (vector level: push/extend with lying iterators and panicking callbacks; front end: injector/clone/drop/restart/push/tick/drop-matcher, tick branching on timeout vs completion, plus an injector thread that outlives restarts and the matcher); non-trivial = a lying iterator or panicking callback is involved / the schedule deviates from the default".into();
             rep.finish()
         }
         "C14" => c14::run(&args[2]),
